@@ -223,6 +223,7 @@ pub fn validate_case_plans(si: &gen::SchemaInfo, text: &str, tmpdir: &str, plans
 
 /// a case restricted to some rules (used by the per-rule enumerators); acyclic documents only run in-process
 /// when non-zero, the per-rule enumerators emit whole-plan cases instead (one in `FULL_MODE` documents)
+pub static PRINTER_LOSSY: std::sync::atomic::AtomicUsize = std::sync::atomic::AtomicUsize::new(0);
 pub static FULL_MODE: std::sync::atomic::AtomicUsize = std::sync::atomic::AtomicUsize::new(0);
 static FULL_COUNT: std::sync::atomic::AtomicUsize = std::sync::atomic::AtomicUsize::new(0);
 
